@@ -14,7 +14,7 @@ use crate::wr::{calls_json, run_calls, WCall, WRes};
 pub static DEF: PropDef = PropDef {
     id: "C02",
     level: "exploration",
-    rule: "each case: a byte stream from one of three producers — (a) the real writer on a random conformant tree with mixed options, (b) the reference encoder with hostile-but-valid choices (size widths 1-8, unknown-size masters of every all-ones width closed by sibling/ancestor/root/exhausted parent/EOF, zero-padded and 0-length integers, 4-byte floats), (c) 1-3 random mutations (bit flips, inserts, deletes, size-field rewrites, id swaps, subtree copies) of (a)/(b). If the real strict iterator (a quarter of the cases: with a random subset of the masters buffered, so that Full items are emitted and written back) reads it cleanly from a root element (pass 1), every item is written back through the real writer (all calls must succeed) and the output is read again (pass 2); pass-2 values must equal pass-1 values. For unmutated reference encodings pass 1 must also equal the semantic tree. distinct = hash of the input bytes; non-trivial iff the rewritten bytes differ from the input (something non-canonical was normalised) or an unknown-size master was present.",
+    rule: "each case: a byte stream from one of three producers — (a) the real writer on a random conformant tree with mixed options, (b) the reference encoder with hostile-but-valid choices (size widths 1-8, unknown-size masters of every all-ones width closed by sibling/ancestor/root/exhausted parent/EOF, zero-padded and 0-length integers, 4-byte floats), (c) 1-3 random mutations (bit flips, inserts, deletes, size-field rewrites, id swaps, subtree copies) of (a)/(b). If the real strict iterator (a quarter of the cases: with a random subset of the masters buffered, so that Full items are emitted and written back) reads it cleanly from a root element (pass 1), every item is written back through the real writer (all calls must succeed) and the output is read again (pass 2); pass-2 values must equal pass-1 values. For unmutated reference encodings pass 1 must also equal the semantic tree. Cases 0-5 (thorough; the two 2^28-1 cases also in the quick tier): giant boundary cases — reference-encoded documents whose Binary payload / master content is exactly 2^28-2, 2^28-1, 2^28 bytes, carried in a 5-, 6- or 8-byte size field; read, re-written with default widths (the re-written size field must decode to the same known size) and read again. distinct = hash of the input bytes; non-trivial iff the rewritten bytes differ from the input (something non-canonical was normalised) or an unknown-size master was present.",
     assumptions: &["streams that pass 1 rejects or that do not begin at a root element are vacuous (counted)", "the size limit is set to 16 MiB for pass 1 so that mutated size fields cannot request huge allocations"],
     cases_quick: 300_000,
     cases_thorough: 3_000_000,
@@ -26,6 +26,11 @@ pub static DEF: PropDef = PropDef {
 fn run(c: &mut Case) {
     if c.tier == crate::runner::Tier::Thorough && c.idx < super::giant::GIANT_CASES {
         super::giant::run_giant(c, "C02", c.idx);
+        return;
+    }
+    if c.tier == crate::runner::Tier::Quick && c.idx < 2 {
+        // quick tier: only the two cases that sit exactly on the boundary (leaf payload / master content of 2^28-1 bytes)
+        super::giant::run_giant(c, "C02", [1u64, 4][c.idx as usize]);
         return;
     }
     let kind = c.rng.below(10);
